@@ -58,6 +58,7 @@ func computeGlobalDisplacements(
 	globalDispSolution := <-solutionChan
 
 	log.EndSolveSysEqs(globalDispSolution.IterCount, globalDispSolution.MinError)
+	verifObserveSolution(sysMatrix, sysVector, globalDispSolution.Solution, options.MaxDisplacementsError)
 	ensureSolutionIsGoodEnough(sysMatrix, sysVector, globalDispSolution.Solution, options.MaxDisplacementsError)
 
 	return &GlobalDisplacementsVector{
